@@ -54,7 +54,7 @@ def run_variant(v, repo):
         for file, old, new in edits:
             path = os.path.join(tmp, file)
             src = open(path).read()
-            if src.count(old) != 1:
+            if (src.count(old) < 1) if v.get("all") else (src.count(old) != 1):
                 return v, "STALE", f"`old` occurs {src.count(old)} times in {file}"
             src = src.replace(old, new)
             try:
